@@ -168,7 +168,8 @@ func (d *Dumper) ValueLit(in any, optFns ...ValueLitOptFn) string {
 
 			return fmt.Sprintf("func(v %s) *%s { return &v }(%s)", elemType, elemType, d.ValueLit(rv.Elem(), optFns...))
 		}
-		return fmt.Sprintf("&(%s)", d.ValueLit(rv.Elem(), optFns...))
+		// the pointed value could not be omitted as an empty struct field could
+		return fmt.Sprintf("&(%s)", d.ValueLit(rv.Elem(), append(optFns, SubValue(false))...))
 	case reflect.Struct:
 		buf := bytes.NewBufferString(d.ReflectTypeLit(tpe))
 		buf.WriteString(`{`)
@@ -214,6 +215,9 @@ func (d *Dumper) ValueLit(in any, optFns ...ValueLitOptFn) string {
 
 		keyLits := make([]string, 0)
 		keyValues := map[string]reflect.Value{}
+
+		// keys and values could not be omitted as an empty struct field could
+		optFns = append(optFns, SubValue(false))
 
 		for _, key := range rv.MapKeys() {
 			k := d.ValueLit(key, optFns...)
